@@ -70,13 +70,46 @@ class MyStr(str):
     pass
 
 
+PLAIN = []      # the plain-number twin of the latest subclass document
+
+
 def subclass_docs(rng):
     """documents whose numbers / strings are subclass or foreign numeric types"""
     conv = [lambda x: np.float64(x), lambda x: np.float32(x) if float(np.float32(x)) == x else np.float64(x),
             lambda x: np.int64(x) if float(x).is_integer() and abs(x) < 2**53 else np.float64(x),
             lambda x: fractions.Fraction(x), lambda x: decimal.Decimal(x)]
     f = rng.choice(conv)
+    if rng.random() < 0.3:
+        # every number picks its own type, unsigned and narrow numpy integers included (values they hold exactly)
+        def mixed(x):
+            if float(x).is_integer() and 0 <= x < 200 and rng.random() < 0.7:
+                return rng.choice([t for t in (np.uint8, np.uint16, np.uint32, np.uint64, np.int8, np.int16, np.int32, np.int64)
+                                   if int(x) <= np.iinfo(t).max])(int(x))
+            if float(x).is_integer() and 0 <= x < 2 ** 31 and rng.random() < 0.5:
+                return rng.choice([np.uint32, np.uint64, np.int64])(int(x))
+            return rng.choice([lambda y: y, np.float64, lambda y: np.float32(y) if float(np.float32(y)) == y else y])(x)
+        f = mixed
     base = gen.gen_model(rng, max_demes=4)
+    if f is not conv[3] and f is not conv[4] and rng.random() < 0.5 and len(base["demes"]) >= 2:
+        # several pulses at distinct integer times between two demes that coexist (their order must be oldest first)
+        a, b = base["demes"][0]["name"], base["demes"][1]["name"]
+        lo = max(base["demes"][0]["epochs"][-1]["end_time"], base["demes"][1]["epochs"][-1]["end_time"])
+        hi = min(base["demes"][0]["start_time"], base["demes"][1]["start_time"])
+        ts = [t for t in range(int(lo) + 1, int(min(hi, lo + 150))) if lo < t < hi]
+        if len(ts) >= 3:
+            base["pulses"] = [dict(sources=[a], dest=b, time=t, proportions=[0.01]) for t in sorted(rng.sample(ts, 3), reverse=True)]
+    if rng.random() < 0.25:
+        # sizes as numpy integers beyond 2**53 (exactly representable as int, not as float)
+        for dm in base["demes"]:
+            for ep in dm["epochs"]:
+                for k in ("start_size", "end_size"):
+                    if float(ep[k]).is_integer() and 0 < ep[k] < 2 ** 20:
+                        ep[k] = int(ep[k]) * 2 ** 40 + 1
+        bigf = f
+
+        def f(x, bigf=bigf):
+            return np.int64(x) if isinstance(x, int) and abs(x) > 2 ** 53 else bigf(x)
+    PLAIN.append(copy.deepcopy(base))
 
     def walk(v, key=None):
         if isinstance(v, bool):
@@ -120,7 +153,18 @@ def run(chk):
         try:
             with warnings.catch_warnings():
                 warnings.simplefilter("ignore")
-                pool.append(("subclass:%d" % i, None, demes.Graph.fromdict(doc)))
+                gs = demes.Graph.fromdict(doc)
+                pool.append(("subclass:%d" % i, None, gs))
+                # the same model written with plain Python numbers of exactly the same values gives the same dictionary
+                twin = PLAIN[-1]
+                if not any(isinstance(x, (fractions.Fraction, decimal.Decimal, np.float32)) for _, x in gen._paths(doc)):
+                    want = demes.Graph.fromdict(twin).asdict()
+                    got = gs.asdict()
+                    if not wire.deep_eq(got, want):
+                        chk.violation("asdict:subclass-value-changed",
+                                      "a model given with numpy scalars resolves to a dictionary with different values than the same model "
+                                      "given with plain numbers", dict(op="asdict", label="subclass:%d" % i,
+                                                                       got=json.loads(json.dumps(got, default=repr)), want=want))
         except Exception:
             chk.count("subclass_rejected")
     for label, doc, g in pool:
